@@ -78,7 +78,12 @@ def _impl():
         rf = types.ModuleType("python.runfiles")
 
         class Runfiles:  # stub: only imported by name in private/compiler.py
-            pass
+            def __init__(self, *a, **k):
+                pass
+
+            @staticmethod
+            def Create(*a, **k):
+                return None
         rf.Runfiles = Runfiles
         pkg.runfiles = rf
         sys.modules.setdefault("python", pkg)
@@ -86,7 +91,7 @@ def _impl():
     spec = importlib.util.spec_from_file_location("rc_private_compiler_c16", str(common.REPO / "private" / "compiler.py"))
     comp = importlib.util.module_from_spec(spec)
     spec.loader.exec_module(comp)
-    _STATE.update(U=U, C=C, M=M, comp=comp)
+    _STATE.update(U=U, C=C, M=M, comp=comp, real_build_repo=M.build_repo)
     return _STATE
 
 
@@ -96,10 +101,28 @@ class _Captured(Exception):
 
 
 def _fake_build_repo(*a, **kw):
-    names = ["solutions", "upgrade_packages", "sources", "excluded_sources", "find_links", "index_urls", "wheeldir"]
-    d = dict(zip(names, a))
-    d.update(kw)
+    # arguments by the REAL build_repo's parameter names, however the caller spells the call (positional / keyword,
+    # further optional arguments); the fixed list is the fall-back for a call the real signature does not explain
+    b = common.bound_call(_STATE["real_build_repo"], a, kw) if _STATE.get("real_build_repo") is not None else None
+    if b is not None:
+        d = dict(b.arguments)
+    else:
+        names = ["solutions", "upgrade_packages", "sources", "excluded_sources", "find_links", "index_urls", "wheeldir"]
+        d = dict(zip(names, a))
+        d.update(kw)
     raise _Captured(d)
+
+
+def _recording_parse(orig, texts: List[str]):
+    """parse_requirement wrapped to record the texts it is handed; forwards the call as the code spelled it and keeps
+    the cache interface of the original (lru_cache) visible"""
+    def rec(*a, **k):
+        texts.append(common.arg_of(orig, a, k, "req_text", pos=0))
+        return orig(*a, **k)
+    for attr in ("cache_clear", "cache_info", "cache_parameters", "__wrapped__"):
+        if hasattr(orig, attr):
+            setattr(rec, attr, getattr(orig, attr))
+    return rec
 
 
 def _exc_name(ex: BaseException) -> str:
@@ -120,16 +143,13 @@ def impl_read(root: str) -> Dict[str, Any]:
     U, C = S["U"], S["C"]
     texts: List[str] = []
     orig = U.parse_requirement
-
-    def rec(t):
-        texts.append(t)
-        return orig(t)
-    U.parse_requirement = rec
+    U.parse_requirement = _recording_parse(orig, texts)
     try:
         try:
             rf = C.RequirementsFile.from_file(root)
             return {"kind": "OK", "texts": texts, "params": list(rf.parameters), "reqs": [str(r) for r in rf.reqs]}
         except Exception as ex:  # noqa
+            common.reraise_harness_fault(ex)     # an error of the recording wrapper is not the reader's
             return {"kind": "ERR", "err": _exc_name(ex), "texts": texts}
         except RecursionError:
             return {"kind": "ERR", "err": "Diverged", "texts": texts}
@@ -174,6 +194,7 @@ def impl_cli(root: str, wheeldir: str, bi: Tuple[str, ...] = (), be: Tuple[str, 
     except RecursionError:
         return ("RAISE", "Diverged")
     except Exception as e:  # noqa
+        common.reraise_harness_fault(e)
         return ("RAISE", _exc_name(e))
     finally:
         M.build_repo = old
@@ -193,6 +214,7 @@ def impl_bazel(root: str) -> Tuple:
     except RecursionError:
         return ("RAISE", "Diverged")
     except Exception as e:  # noqa
+        common.reraise_harness_fault(e)
         return ("RAISE", _exc_name(e))
     finally:
         comp.build_repo = old
@@ -842,16 +864,14 @@ def _correspondence(ctx: Ctx) -> None:
         texts: List[str] = []
         orig = U.parse_requirement
 
-        def rec(t, texts=texts, orig=orig):
-            texts.append(t)
-            return orig(t)
-        U.parse_requirement = rec
+        U.parse_requirement = _recording_parse(orig, texts)
         params: List[str] = []
         try:
             try:
                 list(U.req_iter_from_lines(ls, params))
                 obs = {"kind": "OK", "err": None, "texts": texts, "params": params}
             except Exception as ex:  # noqa
+                common.reraise_harness_fault(ex)
                 obs = {"kind": "ERR", "err": _exc_name(ex), "texts": texts, "params": params}
         finally:
             U.parse_requirement = orig
@@ -877,10 +897,7 @@ def _correspondence(ctx: Ctx) -> None:
         texts = []
         orig = U.parse_requirement
 
-        def rec2(t, texts=texts, orig=orig):
-            texts.append(t)
-            return orig(t)
-        U.parse_requirement = rec2
+        U.parse_requirement = _recording_parse(orig, texts)
         try:
             try:
                 list(U.parse_requirements(ls))
